@@ -173,7 +173,14 @@ class _TreeVisitor(TagTemplateParserVisitor):
         if ctx.BOOLEAN_VALUE():
             return ctx.BOOLEAN_VALUE().getText().lower() == "true"
         elif ctx.NUMERIC_VALUE():
-            return int(ctx.NUMERIC_VALUE().getText())
+            numeric_symbol = ctx.NUMERIC_VALUE().getSymbol()
+            try:
+                return int(numeric_symbol.text)
+            except ValueError:
+                # e.g. more digits than the interpreter is willing to convert
+                raise TemplateSyntaxError(
+                    "numeric value out of range"
+                ).with_location(location_from_symbol(numeric_symbol))
         elif ctx.STRING_VALUE():
             str_val = ctx.STRING_VALUE().getText()
             assert len(str_val) >= 2
